@@ -331,6 +331,20 @@ class Run:
                     nets_ok = False
                     run.foreign_sessions.append(f"test {key[0]} of {wid} spawned through the session to "
                                                 f"{sess.host}:{sess.port} (its own worker is {want[0]}:{want[1]})")
+            if me is not None:
+                # independent reading of the worker's object restrictions (lines `only a, b` / `no a, b` per vm): a test must
+                # never be executed by a worker whose restrictions exclude one of its vm variants
+                for o in node.objects:
+                    if o.key != "vms":
+                        continue
+                    variants = o.params.get("name", "").split(".")
+                    for line in (getattr(me, "restrs", None) or {}).get(o.suffix, "").splitlines():
+                        kind, _, listed = line.strip().partition(" ")
+                        listed = [v.strip() for v in listed.split(",") if v.strip()]
+                        hit = any(v in variants for v in listed)
+                        if (kind == "only" and listed and not hit) or (kind == "no" and hit):
+                            run.excluded_runs.append(f"{key[0]} with {o.suffix}={o.params.get('name')} executed by {me.id} "
+                                                     f"whose restrictions say '{line.strip()}'")
             run.ev(run.worker_of_task(), "start", key[0], uid, {
                 "node_worker": key[1], "nets": node.params.get("nets"), "host": node.params.get("nets_host"),
                 "gateway": node.params.get("nets_gateway"), "spawner": node.params.get("nets_spawner"),
@@ -468,6 +482,7 @@ class Run:
         m.worker_mod.remote.wait_for_login = lambda *a, **k: FakeSession(*a, **k)
         m.TestWorker._session_cache = {}
         self.foreign_sessions = []
+        self.excluded_runs = []
         if not getattr(self, "static_after", False):
             # (runs that expand flat nodes with the real parser keep the real function, also for the creation pre-step)
             m.TestGraph.parse_node_from_object = staticmethod(parse_node_from_object)
@@ -914,6 +929,7 @@ def run_case(spec, driver, monitors=MONITORS, max_virtual=200000, run_cls=None):
     res["kinds"] = kinds
     res["n_exec"] = kinds.get("start", 0)
     res["foreign_sessions"] = list(getattr(r, "foreign_sessions", []))[:5]
+    res["excluded_runs"] = list(getattr(r, "excluded_runs", []))[:5]
     # states removed during the run (state control `unset` requests): "<object>:<state>" -> workers that removed it
     res["unset_by"] = {}
     for e in r.events:
